@@ -44,13 +44,23 @@ P('C01', claimed=True, needs_driver=True, level='other',
   unreached=['acceptance by a real scsynth'])
 
 P('C02', claimed=True, needs_driver=True, level='other',
-  contracts=['synth_fmtrw'], drivers=['vf.drivers.C02'],
-  level_text=('Byte lengths and value ranges of the binary writers are discharged obligations; '
-              'well-formedness of whole definitions (complete parse as one SCgf-2 definition, wires '
-              'refer to earlier units/existing constants, width-first ordering, consistent counts, '
-              'acceptance by the library reader, rejection of invalid graphs) is decided by a bounded '
-              'run-time contract with an independent reader.'),
-  level_note='The writer and the reader of whole definitions are bounded only. Trusted: independent SCgf-2 reader.',
+  contracts=['synth_fmtrw', 'synth_writer'], drivers=['vf.drivers.C02'],
+  level_text=('Discharged (pyvc, all inputs): byte lengths and value ranges of the primitive writers; the field '
+              'sequence a unit writes (SynthObject._write_def: name, rate number, input count, output count, '
+              'special index as i16, then exactly one input spec per input in order, then the output specs - '
+              'valid for every subclass because the virtual methods are opaque); the base implementations '
+              '(_write_input_spec = (unit index, output index), _rate_number, _write_output_spec(s), '
+              'MultiOutUGen: one spec per channel in order); constants as inputs (-1, slot of float(value), '
+              'refused without writing when the constant is unknown); sequences as inputs; OutputProxy wire '
+              'coordinates; the file header (SCgf, version 2, definition count). Bounded: well-formedness of '
+              'whole definitions (complete parse as one SCgf-2 definition, wires refer to earlier units/'
+              'existing constants, width-first ordering, consistent counts, acceptance by the library reader '
+              'incl. every output unit the source creates, rejection of invalid graphs) with an independent '
+              'reader.'),
+  level_note=('SynthDef._write_def (controls, name table, variants), _write_constants, the topological sort and '
+              'the reader of whole definitions are bounded only. The primitive writers are replaced by ghost '
+              'trace events in the unit-level contracts (their own contracts are proved separately). Trusted: '
+              'independent SCgf-2 reader.'),
   unreached=['acceptance by a real scsynth'])
 
 P('C03', claimed=True, level='other', contracts=['base_utils', 'synth_ugen'], drivers=['vf.drivers.C03'],
